@@ -3,6 +3,9 @@
 #include <pistache/async.h>
 #include <tuple>
 #include <memory>
+#include <atomic>
+#include <thread>
+#include <vector>
 
 using namespace vh;
 using namespace Pistache;
@@ -264,8 +267,61 @@ static std::string runProg(const std::vector<std::string>& w, bool drop)
         return outs + " | log=" + (in.log.empty() ? "-" : in.log) + " | st=" + (st.empty() ? "-" : st);
 }
 
+// allmt <n 2..4> <rounds>: the inputs of one variadic whenAll are fulfilled by n DIFFERENT threads at the same moment (spin barrier),
+// round after round.  The combined promise's continuation must run exactly once per round with all n values, and no party that
+// only fulfils its own input may be thrown at.
+template <size_t N> struct AllMt;
+template <> struct AllMt<2> { using Tup = std::tuple<int, int>; template <class P> static auto all(P& p) { return Async::whenAll(p[0], p[1]); } };
+template <> struct AllMt<3> { using Tup = std::tuple<int, int, int>; template <class P> static auto all(P& p) { return Async::whenAll(p[0], p[1], p[2]); } };
+template <> struct AllMt<4> { using Tup = std::tuple<int, int, int, int>; template <class P> static auto all(P& p) { return Async::whenAll(p[0], p[1], p[2], p[3]); } };
+
+template <size_t N>
+std::string runAllMt(int rounds)
+{
+    std::atomic<int> phase { 0 }, arrived { 0 }, thrown { 0 };
+    std::atomic<bool> quit { false };
+    std::vector<Async::Resolver> res;             // the resolvers of the current round
+    std::vector<std::thread> ths;
+    for (size_t t = 0; t < N; ++t) ths.emplace_back([&, t] {
+        int seen = 0;
+        for (;;) {
+            while (phase.load(std::memory_order_acquire) == seen) { if (quit.load()) return; }
+            seen = phase.load(std::memory_order_acquire);
+            try { res[t](static_cast<int>(10 + t)); } catch (...) { ++thrown; }
+            ++arrived;
+        }
+    });
+    long once = 0, multi = 0, none = 0, wrong = 0;
+    for (int r = 0; r < rounds; ++r) {
+        std::vector<Async::Promise<int>> ps; res.clear();
+        for (size_t t = 0; t < N; ++t) ps.emplace_back([&](Async::Resolver& rs, Async::Rejection&) { res.push_back(std::move(rs)); });
+        std::atomic<int> calls { 0 }; std::atomic<int> sum { 0 };
+        auto all = AllMt<N>::all(ps);
+        using Tup = typename AllMt<N>::Tup;
+        all.then([&](const Tup& tup) { ++calls; sum += std::get<0>(tup) + std::get<N - 1>(tup); }, Async::NoExcept);
+        arrived = 0;
+        phase.fetch_add(1, std::memory_order_release);
+        while (arrived.load() < static_cast<int>(N)) { }
+        int c = calls.load();
+        if (c == 1) { ++once; if (sum.load() != 10 + 10 + static_cast<int>(N) - 1) ++wrong; } else if (c == 0) ++none; else ++multi;
+    }
+    quit = true;
+    for (auto& t : ths) t.join();
+    return "rounds=" + std::to_string(rounds) + " once=" + std::to_string(once) + " never=" + std::to_string(none) + " repeated=" + std::to_string(multi)
+        + " wrongvalues=" + std::to_string(wrong) + " thrown=" + std::to_string(thrown.load());
+}
+
 void registerAsync(std::map<std::string, Op>& ops)
 {
+    ops["allmt"] = [](const std::vector<std::string>& w) -> std::string {
+        if (w.size() != 3) return "bad-op";
+        int n = atoi(w[1].c_str()), rounds = atoi(w[2].c_str());
+        if (rounds < 1 || rounds > 1000000) return "bad-op";
+        if (n == 2) return runAllMt<2>(rounds);
+        if (n == 3) return runAllMt<3>(rounds);
+        if (n == 4) return runAllMt<4>(rounds);
+        return "bad-op";
+    };
     // prog <op> ; <op> ; ...          every handle is kept to the end (final states are reported)
     // progd <op> ; <op> ; ...         every handle is let go right after its last use (no final states)
     ops["prog"] = [](const std::vector<std::string>& w) -> std::string { return runProg(w, false); };
